@@ -569,6 +569,7 @@ func (w *world) recover(im image) {
 		}
 		keys := w.sortedKeys()
 		got := map[string]uint64{}
+		mustOf := map[string]uint64{} // key -> id it must still have (creation returned before the cut, never deleted)
 		owner := map[uint64]string{}
 		for _, s := range keys {
 			k := w.keys[s]
@@ -581,17 +582,18 @@ func (w *world) recover(im image) {
 					must = y
 				}
 			}
+			mustOf[s] = must
 			if must != 0 && id == 0 {
-				fail("C13:series-lost", "lost-after-crash", "key %q is unknown, but its creation with id %d had returned (at %d) and it was never deleted", s, must, w.ids[must].seen)
+				fail("C13:crash-damaged-returned-series", "lost-after-crash", "key %q is unknown, but its creation with id %d had returned (at %d) and it was never deleted", s, must, w.ids[must].seen)
 				return
 			}
 			if must != 0 && id != must {
-				fail("C13:id-changed", "id-changed-after-crash", "key %q has id %d, but its creation had returned id %d (at %d) and it was never deleted", s, id, must, w.ids[must].seen)
+				fail("C13:crash-damaged-returned-series", "id-changed-after-crash", "key %q has id %d, but its creation had returned id %d (at %d) and it was never deleted", s, id, must, w.ids[must].seen)
 				return
 			}
 			if must != 0 {
 				if b := w2.sf.SeriesKey(must); b == nil || parseKey(b) != s {
-					fail("C13:key-changed", "key-changed-after-crash", "SeriesKey(%d) = %q, but the creation of %q with this id had returned (at %d) and it was never deleted", must, parseKey(b), s, w.ids[must].seen)
+					fail("C13:crash-damaged-returned-series", "key-changed-after-crash", "SeriesKey(%d) = %q, but the creation of %q with this id had returned (at %d) and it was never deleted", must, parseKey(b), s, w.ids[must].seen)
 					return
 				}
 			}
@@ -642,12 +644,18 @@ func (w *world) recover(im image) {
 			seen := map[uint64]string{}
 			for i, s := range all {
 				id := ids[i]
+				cls := func(c string) string {
+					if mustOf[s] != 0 {
+						return "C13:crash-damaged-returned-series"
+					}
+					return c
+				}
 				if id == 0 {
-					fail("C13:zero-id", "zero-id-after-crash", "%s: creation of %q returned id 0", when, s)
+					fail(cls("C13:zero-id"), "zero-id-after-crash", "%s: creation of %q returned id 0", when, s)
 					return false
 				}
 				if got[s] != 0 && id != got[s] {
-					fail("C13:id-changed", "id-changed-after-crash", "%s: key %q had id %d after recovery and CreateSeriesListIfNotExists now returns %d", when, s, got[s], id)
+					fail(cls("C13:id-changed"), "id-changed-after-crash", "%s: key %q had id %d after recovery and CreateSeriesListIfNotExists now returns %d", when, s, got[s], id)
 					return false
 				}
 				if got[s] == 0 {
@@ -657,7 +665,7 @@ func (w *world) recover(im image) {
 					}
 				}
 				if o, ok := seen[id]; ok && o != s {
-					fail("C13:id-two-keys", "id-two-keys-after-crash", "%s: keys %q and %q both have id %d", when, o, s, id)
+					fail(cls("C13:id-two-keys"), "id-two-keys-after-crash", "%s: keys %q and %q both have id %d", when, o, s, id)
 					return false
 				}
 				seen[id] = s
@@ -667,11 +675,11 @@ func (w *world) recover(im image) {
 						seg := p.Segments()[0]
 						r.Logf("DEBUG partition %d segsize=%d index.maxoffset? key=%x data[380:460]=%x", p.ID(), seg.Size(), b, seg.Data()[380:460])
 					}
-					fail("C13:key-changed", "key-mismatch-after-crash", "%s: series %q has id %d but SeriesKey(%d) = %q", when, s, id, id, parseKey(b))
+					fail(cls("C13:key-changed"), "key-mismatch-after-crash", "%s: series %q has id %d but SeriesKey(%d) = %q", when, s, id, id, parseKey(b))
 					return false
 				}
 				if id2 := w2.sf.SeriesID(names[i], tags[i], nil); id2 != id {
-					fail("C13:id-changed", "id-changed-after-crash", "%s: series %q was created with id %d but SeriesID returns %d", when, s, id, id2)
+					fail(cls("C13:id-changed"), "id-changed-after-crash", "%s: series %q was created with id %d but SeriesID returns %d", when, s, id, id2)
 					return false
 				}
 			}
